@@ -179,7 +179,7 @@ func c44ForgeryCheck(r *vkit.Run, src *c44Source, ses *c44Session, foreign []byt
 	if r.Try(func() interface{} { return c }, func() { rr = runRaw(buildServer(&ses.Spec, ses.Cache), h.marshalRecord()) }) {
 		return
 	}
-	if hangCheck(r, rr.Hung, c) {
+	if abnormal(r, rr.Hung, rr.Panic, c) {
 		return
 	}
 	f := rr.Flight
@@ -355,7 +355,7 @@ func c44Planted(r *vkit.Run, idx int, src *c44Source, ses *c44Session, foreign [
 		wit := map[string]interface{}{"case": c, "client_err": errStr(res.CliErr), "server_err": errStr(res.SrvErr), "server_flight": res.Flight,
 			"server_resumed": res.Srv.DidResume, "client_resumed": res.Cli.DidResume}
 		r.CaseS(fmt.Sprintf("planted|%v|%v", *src, m), m.Op != "valid")
-		if hangCheck(r, res.Hung, c) {
+		if abnormal(r, res.Hung, res.Panic, c) {
 			return
 		}
 		resumed := res.Flight.Abbreviated() || res.Srv.DidResume || res.Cli.DidResume
@@ -609,7 +609,7 @@ func c44History(r *vkit.Run, h *c44Hist) {
 	}) {
 		return
 	}
-	if hangCheck(r, first.Hung, h) {
+	if abnormal(r, first.Hung, first.Panic, h) {
 		return
 	}
 	if !first.ok() || first.EchoErr != "" {
@@ -647,7 +647,7 @@ func c44History(r *vkit.Run, h *c44Hist) {
 		if r.Try(func() interface{} { return h }, func() { rr = runRaw(buildServer(&h.S2, cache), hello.marshalRecord()) }) {
 			return
 		}
-		if hangCheck(r, rr.Hung, h) {
+		if abnormal(r, rr.Hung, rr.Panic, h) {
 			return
 		}
 		f = rr.Flight
@@ -662,7 +662,7 @@ func c44History(r *vkit.Run, h *c44Hist) {
 		}) {
 			return
 		}
-		if hangCheck(r, second.Hung, h) {
+		if abnormal(r, second.Hung, second.Panic, h) {
 			return
 		}
 		f = second.Flight
@@ -841,8 +841,10 @@ func c44(r *vkit.Run) {
 			}
 			srcs = append(srcs, c44Source{Cert: b.cert, Vers: b.v, Suite: b.suite, Mode: "ticket"})
 			if b.v == vTLS12 {
-				srcs = append(srcs, c44Source{Cert: b.cert, Vers: b.v, Suite: b.suite, CliCert: "A", Mode: "ticket"},
-					c44Source{Cert: b.cert, Vers: b.v, Suite: b.suite, Mode: "sessionid"})
+				srcs = append(srcs, c44Source{Cert: b.cert, Vers: b.v, Suite: b.suite, Mode: "sessionid"})
+				if si := suiteByID(b.suite); !si.Chacha { // the client-auth rule does not enable chacha
+					srcs = append(srcs, c44Source{Cert: b.cert, Vers: b.v, Suite: b.suite, CliCert: "A", Mode: "ticket"})
+				}
 			}
 		}
 	}
